@@ -226,7 +226,7 @@ def run_real(m, table, q, use_preaggregations=False, layer=None):
     if layer is None:
         layer = SemanticLayer(auto_register=False)
         layer.add_model(build_model(m))
-        layer.conn.execute("SET TimeZone='UTC'")
+        layer.conn.execute("SET TimeZone='UTC'"); layer.conn.execute("SET threads=1"); layer.conn.execute("SET disabled_optimizers='statistics_propagation'")
         load_table(layer.conn, m["table"], table)
     con = layer.conn
     res = {"outcome": "ok", "sql": None, "columns": None, "rows": None}
